@@ -59,6 +59,12 @@ type Genesis struct {
 	Balances  []int64 `json:"balances"` // per account index
 	Dust      []int64 `json:"dust,omitempty"` // per account: balance in a second denomination ("dust")
 	KeyTypes  []string `json:"key_types,omitempty"` // per account: "ed" (default) | "secp"
+	// MaxGas > 0 configures a block gas limit (consensus params). The reference model keeps no gas account, so
+	// in such runs only the model-free oracles (replica comparison, crash/replay, invariants) apply.
+	MaxGas int64 `json:"max_gas,omitempty"`
+	// Late: accounts that are not in the genesis file: they come to exist when first credited (their
+	// "balance" is sent to them in block 1) and then carry no public key on record
+	Late []int `json:"late,omitempty"`
 	Validators []GenVal `json:"validators"`
 	DAOTokens int64 `json:"dao_tokens"`
 	DAOOwner  int   `json:"dao_owner"`
